@@ -227,7 +227,16 @@ func (e *Engine) buildPrelude(solver string, body string) string {
 	// okslice_<k>(tag): an object of allocation type `tag` may back a slice of element type k (it is not one of the
 	// known struct types that hold no cell of that type)
 	e.mu.Lock()
-	for k, el := range e.elemTypes {
+	var elOrder []int
+	for k := range e.elemTypes {
+		if strings.Contains(body, "okslice_"+e.elemNames[k]+" ") {
+			elOrder = append(elOrder, k) // only the predicates this script uses, in an order that depends on nothing else
+		}
+	}
+	sort.Slice(elOrder, func(i, j int) bool { return e.elemNames[elOrder[i]] < e.elemNames[elOrder[j]] })
+	for _, ki := range elOrder {
+		el := e.elemTypes[ki]
+		k := e.elemNames[ki]
 		var bad []string
 		var all []int
 		for tg := range e.tagTy {
@@ -267,14 +276,14 @@ func (e *Engine) buildPrelude(solver string, body string) string {
 				}
 			}
 			if len(good) > 0 {
-				fmt.Fprintf(&sb, "(define-fun okslice_%d ((t Int)) Bool (or %s))\n", k, strings.Join(good, " "))
+				fmt.Fprintf(&sb, "(define-fun okslice_%s ((t Int)) Bool (or %s))\n", k, strings.Join(good, " "))
 				continue
 			}
 		}
 		if len(bad) == 0 {
-			fmt.Fprintf(&sb, "(define-fun okslice_%d ((t Int)) Bool true)\n", k)
+			fmt.Fprintf(&sb, "(define-fun okslice_%s ((t Int)) Bool true)\n", k)
 		} else {
-			fmt.Fprintf(&sb, "(define-fun okslice_%d ((t Int)) Bool (not (or %s)))\n", k, strings.Join(bad, " "))
+			fmt.Fprintf(&sb, "(define-fun okslice_%s ((t Int)) Bool (not (or %s)))\n", k, strings.Join(bad, " "))
 		}
 	}
 	e.mu.Unlock()
